@@ -346,6 +346,9 @@ func C13(p *core.Program, r *core.Report) {
 	// ---- (4)
 	checkConcurrentFailureReports(p, r)
 
+	// ---- (6) the per-bundle state is initialised once
+	checkNotifyOnce(p, r)
+
 	// ---- (5) direct delivery
 	fwd := p.Func(routingPkg, "Core", "forward")
 	nInv := 0
@@ -594,4 +597,101 @@ func isBundleDataWrite(i ssa.Instruction) bool {
 		}
 	})
 	return found
+}
+
+// checkNotifyOnce: some NotifyNewBundle implementations (spray, binary spray)
+// overwrite the bundle's in-memory metadata (sent list, copy budget)
+// unconditionally. As long as one does, the Core may announce a bundle to the
+// algorithm only when it is new: in SendBundle after the ID was assigned, or
+// in receive after the known-bundle test. A second announcement (duplicate
+// reception) would forget the peers already served and refresh the budget.
+func checkNotifyOnce(p *core.Program, r *core.Report) {
+	var overwriters []string
+	impls := p.Implementations(routingPkg, "Algorithm")
+	isImpl := map[*ssa.Function]bool{}
+	for _, n := range impls {
+		m := p.MethodOf(n, "NotifyNewBundle")
+		if m == nil {
+			continue
+		}
+		isImpl[m] = true
+		unguarded := false
+		core.EachInstr(m, func(in ssa.Instruction) {
+			if !isBundleDataWrite(in) {
+				return
+			}
+			// accepted guard: the write is reached only when a lookup of the same map said "not present"
+			guarded := false
+			for _, cd := range core.DominatingConds(in.Block()) {
+				if ex, ok := cd.V.(*ssa.Extract); ok && ex.Index == 1 && !cd.True {
+					if lk, ok := ex.Tuple.(*ssa.Lookup); ok && lk.CommaOk && pathEndsWith(lk.X, "bundleData") {
+						guarded = true
+					}
+				}
+			}
+			if !guarded {
+				unguarded = true
+			}
+		})
+		if unguarded {
+			overwriters = append(overwriters, fname(m))
+		}
+	}
+	r.Count("NotifyNewBundle implementations", len(isImpl))
+	r.Min("NotifyNewBundle implementations", 6)
+	n := 0
+	reach := p.DaemonReachable()
+	for _, fn := range p.RepoFuncs() {
+		if isImpl[fn] || !reach[topFunc(fn)] {
+			continue
+		}
+		core.EachInstr(fn, func(in ssa.Instruction) {
+			c, ok := in.(*ssa.Call)
+			if !ok || !c.Common().IsInvoke() || c.Common().Method.Name() != "NotifyNewBundle" {
+				return
+			}
+			n++
+			key := "notify-once/" + fname(fn)
+			rule := "the routing algorithm is told about a bundle only when the bundle is new to this node (after the sequence number was assigned in SendBundle, or behind the known-bundle test of receive): spray and binary spray initialise the bundle's sent list and copy budget in NotifyNewBundle without looking at what they already hold"
+			if len(overwriters) == 0 {
+				r.OK(key, rule, p.Pos(c.Pos()), "no implementation overwrites existing per-bundle state")
+				return
+			}
+			// (a) locally created bundle
+			upd := p.Func(routingPkg, "IdKeeper", "update")
+			okNew := core.MustPassBefore(c, func(i ssa.Instruction) bool {
+				cc, ok := i.(ssa.CallInstruction)
+				return ok && core.Callee(cc) == upd
+			})
+			// (b) behind the known-bundle test
+			why := ""
+			if !okNew {
+				for _, cd := range core.DominatingConds(c.Block()) {
+					if b, ok := cd.V.(*ssa.BinOp); ok {
+						lc, isLen := b.X.(*ssa.Call)
+						if !isLen {
+							continue
+						}
+						bi, isB := lc.Common().Value.(*ssa.Builtin)
+						if !isB || bi.Name() != "len" || !pathEndsWith(lc.Common().Args[0], "Constraints") {
+							continue
+						}
+						k, isC := core.ConstInt(b.Y)
+						if isC && k == 0 && ((b.Op == token.GTR && !cd.True) || (b.Op == token.EQL && cd.True) || (b.Op == token.NEQ && !cd.True)) {
+							okNew = true
+						}
+					}
+					if _, ok := core.CondIsCall(cd, routingPkg+".BundleDescriptor.HasConstraints"); ok && !cd.True {
+						okNew = true
+					}
+				}
+				if !okNew {
+					why = "this announcement can be reached for a bundle the node already holds (no IdKeeper.update before it, not behind len(bp.Constraints)==0); overwriting implementations: " + strings.Join(overwriters, ", ")
+				}
+			}
+			r.Check(okNew, key, rule, p.Pos(c.Pos()), "", why)
+		})
+	}
+	r.Count("NotifyNewBundle announcements in daemon code", n)
+	r.Min("NotifyNewBundle announcements in daemon code", 2)
 }
